@@ -1,9 +1,62 @@
-import Okane.Drv.IOUtil
-/-! Driver commands for C04 (stub: replaced when the property's streams are built). -/
+import Okane.Drv.Core
+import Okane.Model.Range
+/-!
+`drv c04`: input = output lines of `hx c04` (`<id> tree=… result=… ranges=… reg=…`).
+For every queried range the model's `balanceNoConv` (over the implementation's own transactions and raw balance,
+with the declared precisions the model derives from the tree) is compared with the implementation's answer;
+the register's running total is recomputed with the model's `register`.
+Output: `<id> agree` | `<id> DISAGREE <what>` | `<id> skip …`
+-/
 namespace Okane.Drv.C04
+open Okane Okane.Drv Sexp
 
-def main (args : List String) : IO Unit := do
-  let _ := args
-  pure ()
+def decDateAtom (s : Sexp) : Option (Option Date) :=
+  match s with
+  | .atom "-" => some none
+  | .atom a =>
+    match a.splitOn "-" with
+    | [y, m, d] => do
+      let y ← y.toInt?; let m ← m.toNat?; let d ← d.toNat?
+      pure (some ⟨y, m, d⟩)
+    | _ => none
+  | _ => none
+
+def step (line : String) : String :=
+  let (id, fs) := splitFields line
+  match field fs "tree", field fs "result", field fs "ranges", field fs "reg" with
+  | some t, some r, some rg, some reg =>
+    match decEntries t, (Sexp.parse r).bind decResult, Sexp.parse rg, Sexp.parse reg with
+    | some es, some (.ok txns raw), some (.list ranges), some (.list regs) =>
+      -- declared precisions: from the model's own run over the tree
+      let prec : String → Option Nat := match process es with
+        | .ok st => st.ctx.prec
+        | _ => fun _ => none
+      let bad := ranges.filterMap fun rr =>
+        match rr with
+        | .list [s, e, b] =>
+          match decDateAtom s, decDateAtom e, decBalance b with
+          | some s', some e', some implB =>
+            let m := balanceNoConv prec txns raw ⟨s', e'⟩
+            if balanceEq m implB then none else some s!"range {s.toStr}..{e.toStr} model={(Sexp.list (sortBalance m |>.map fun kv => .list [mkStr kv.1, .list (kv.2.map fun cv => .list [mkStr cv.1, encRat cv.2])])).toStr}"
+          | _, _, _ => some s!"undecodable range {rr.toStr}"
+        | _ => some "undecodable range"
+      -- register
+      let implReg := regs.filterMap fun x =>
+        match x with
+        | .list [a, amt, tot] => do
+          let a ← a.str?; let amt ← decAmount amt; let tot ← decAmount tot
+          pure (a, amt, tot)
+        | _ => none
+      let modelReg := register (postingsOf txns (none : Option String))
+      let regOk := implReg.length == modelReg.length &&
+        listAll2 (fun (x : String × Amount String × Amount String) (y : String × Amount String × Amount String) =>
+          x.1 == y.1 && amountEq x.2.1 y.2.1 && amountEq x.2.2 y.2.2) implReg (modelReg.map fun pt => (pt.1.account, pt.1.amount, pt.2))
+      if bad.isEmpty && regOk then s!"{id} agree"
+      else s!"{id} DISAGREE {" | ".intercalate bad}{if regOk then "" else " register differs"}"
+    | _, some _, _, _ => s!"{id} skip not-accepted"
+    | _, _, _, _ => s!"{id} undecodable"
+  | _, _, _, _ => s!"{id} bad-case"
+
+def main (_args : List String) : IO Unit := forEachLine step
 
 end Okane.Drv.C04
